@@ -141,7 +141,8 @@ func measure(e *ev.Env, c *ev.Case, sigPrefix string, mk func() *fiber.App, inpu
 		if d > 1<<20 {
 			runtime.GC() // keep the footprint small: the address space is capped
 		}
-		if try >= 1 && min <= limit {
+		// two runs always; more only while the figure is over the limit but close to it
+		if try >= 1 && (min <= limit || min > 4*limit) {
 			break
 		}
 	}
@@ -470,4 +471,14 @@ func injectedLine(b []byte) (name, after string) {
 		return string(l[:k]), after
 	}
 	return "", ""
+}
+
+// journalInput writes the raw input to the journal before it is served, so that a fatal error is
+// attributable without a replay. In the thorough tier (millions of cases, gigabytes of hex) only
+// inputs that carry a flash cookie with an array32 header - the one known way to ask for
+// gigabytes - are written; every case is still journalled by id and replays from (seed, id).
+func journalInput(e *ev.Env, tag string, raw []byte) {
+	if e.Quick() || e.Only != "" || fatalCandidate(raw) {
+		e.Journal(tag + " " + hexOf(raw))
+	}
 }
